@@ -10,7 +10,7 @@ META = dict(
                "winding number / Fills(winding number), reports no boundary and never takes the out-of-range read. The model is "
                "tied to the Go code on every run by an exact differential run (records of RayIntersections, Windings, "
                "Crossings) and the Go results are judged directly against the spec (wn, on_boundary) including vertex-level, "
-               "horizontal-edge and boundary queries, which the theorem does not cover.",
+               "horizontal-edge and boundary queries, which the theorem does not cover. Added: the winding-number specification of whole paths (any number of contours) is invariant under translating path and query point together.",
     level_note="Trusted: Coq kernel + vm_compute; the hand-written model is tied by differential testing on generated polygons "
                "(integer grid; curved segments: judged against the spec on a fine flattening), not by a proof about Go source. "
                "Vertex-level rays and horizontal edges are covered by the differential run only.",
